@@ -46,6 +46,8 @@ use std::{
     io::{self, BufRead, Read},
 };
 
+mod dense;
+
 use corpus::{CramLayout, Item, Kind, Variant};
 use noodles_bgzf as bgzf;
 use noodles_fasta as fasta;
@@ -812,7 +814,20 @@ fn plan(ctx: &Ctx) -> Plan {
 
 fn cuts_for(item: &Item, seed: u64, p: &Plan) -> (Vec<usize>, bool) {
     let len = item.bytes.len();
-    if len <= p.exhaustive_limit {
+    if item.name.contains(dense::MARK) && item.name.ends_with("many-flushed") {
+        // ~1 000 tiny members: the stream the index parser sees only changes at member boundaries, so every member
+        // is cut at its start, 1 and 17 bytes into its header, at the first byte of its body and 1 byte before its end
+        let mut set = BTreeSet::new();
+        if let Ok(w) = obgzf::walk(&item.bytes) {
+            for m in &w.members {
+                let (o, e) = (m.offset as usize, (m.offset + m.size) as usize);
+                set.extend([o, o + 1, o + 17, o + 18, e - 1, e]);
+            }
+        }
+        set.extend(len.saturating_sub(p.near)..=len);
+        return (set.into_iter().filter(|&c| c <= len).collect(), false);
+    }
+    if len <= p.exhaustive_limit || item.name.contains(dense::MARK) {
         return ((0..=len).collect(), true);
     }
     let mut set = BTreeSet::new();
@@ -888,6 +903,11 @@ fn build_files(ctx: &Ctx) -> Vec<FileEntry> {
         let mut items = corpus::items_with_tmp(seed, p.scale, &tmp);
         let extra: Vec<Item> = items.iter().filter_map(rewrap).collect();
         items.extend(extra);
+        if seed == p.seeds[0] && p.scale > 0 {
+            // seed-independent dense index files (see dense.rs); the in-process chk / asan stages skip the two largest
+            let reduced = ctx.param("reduced").is_some();
+            items.extend(dense::items().into_iter().filter(|i| !(reduced && i.name.ends_with("many-flushed"))));
+        }
         for item in items {
             if !KINDS.contains(&item.kind) {
                 continue;
@@ -1188,6 +1208,8 @@ fn main() {
             for k in KINDS {
                 rep.floor(&format!("files of kind {}", k.name()), files.iter().filter(|f| f.item.kind == *k).count() as u64, 1);
             }
+            rep.floor("dense index files (every numeric field uses all its bytes)", files.iter().filter(|f| f.item.name.contains(dense::MARK)).count() as u64, if reduced { 14 } else { 16 });
+            rep.floor("binary-index trailer cuts that lose exactly the optional count", get("tolerated[optional-unplaced-unmapped-count-lost]"), 20);
         }
     }
     rep.finish(&ctx);
